@@ -1,5 +1,5 @@
 (* C09 — writer output does not depend on how the same document is presented.  Statements only. *)
-From Ebml Require Import Base Tools Spec Writer Reader Pure Encode Proofs.Tactics Proofs.SpecProofs Proofs.WriterProofs Proofs.RoundTrip Proofs.WriteEnc Proofs.WriteFull Proofs.WriteMixed Proofs.WriteScripts.
+From Ebml Require Import Base Tools Spec Writer Reader Pure Encode Proofs.Tactics Proofs.SpecProofs Proofs.WriterProofs Proofs.RoundTrip Proofs.WriteEnc Proofs.WriteFull Proofs.WriteMixed Proofs.WriteScripts Proofs.AuditWriter.
 
 (* the deprecated unknown-size call is the option-based one *)
 Theorem C09_deprecated : forall sp st t, wstep sp st (OpWriteUnknown t) = wstep sp st (OpWrite t {| o_len := None; o_unknown := true |}).
@@ -79,19 +79,28 @@ Proof. vm_compute. reflexivity. Qed.
 
 (* ------------------------------------------------------------------ whole documents (Proofs/WriteEnc.v, Proofs/WriteFull.v,
    Proofs/WriteMixed.v) *)
-(* a conforming document written tag by tag (Start / elements / End; explicit widths or defaults; unknown size by option)
-   gives its structural encoding [enc_forest], in which options show up only in the size fields they govern *)
+(* The flag d is global to a document: d = true — every call is made with default options (masters of unknown size by option), and the
+   conformance predicates then require every recorded width to be the shortest one; d = false — every call names its width
+   explicitly.  Mixing defaults and explicit widths inside one document is outside these theorems.  The destination is the one that
+   accepts everything (empty script; other benign destinations: C09_script_irrelevant); a failure of the destination's own flush()
+   after delivery is not modelled. *)
+(* a document f every tree of which conforms for writing ([wconf sp d []]: declared paths without placeholders, values of the declared
+   types, sizes that fit the widths, d as above), written tag by tag (Start / elements / End; unknown size by option): every call
+   succeeds and the output is its structural encoding [enc_forest], in which options show up only in the size fields they govern *)
 Theorem C09_separate_calls_encode : forall sp d f, Forall (wconf sp d []) f ->
   Forall (fun r => fst r = WOk) (fst (run_writer sp (wops_forest d f) [])) /\ snd (run_writer sp (wops_forest d f) []) = enc_forest f.
 Proof. exact writer_encodes. Qed.
 
-(* the same document with every master given as one Full item gives the same structural encoding ... *)
+(* a document every top-level tree of which conforms as one Full item ([fconf sp d []]: the item's own size option follows d; everything
+   inside a Full is written with default options, so every master inside has a known size, [all_known], and the shortest widths),
+   written with one call per top-level tree: every call succeeds and the output is the same structural encoding ... *)
 Theorem C09_full_items_encode : forall sp d f, Forall (fconf sp d []) f ->
   Forall (fun r => fst r = WOk) (fst (run_writer sp (fops d f) [])) /\ snd (run_writer sp (fops d f) []) = enc_forest f.
 Proof. exact full_encodes. Qed.
 
 (* ... hence byte-identical output for the two presentations, although the separate calls flush in between whenever only
-   unknown-size masters are open and the Full call does not *)
+   unknown-size masters are open and the Full call does not.  Restricted to d = true (default options everywhere) and to documents
+   in which EVERY master, the top-level ones included, has a known size ([all_known]) and which conform as Full items *)
 Theorem C09_full_equals_separate : forall sp f, Forall (fconf sp true []) f -> Forall all_known f ->
   snd (run_writer sp (fops true f) []) = snd (run_writer sp (wops_forest true f) []).
 Proof. exact full_equals_separate. Qed.
@@ -151,3 +160,41 @@ Example C09_mixed_ex :
   calls separate = repeat WOk 12 /\ calls full = repeat WOk 1 /\ calls mixed = repeat WOk 7 /\
   out separate = out full /\ out full = out mixed /\ out mixed = enc_forest f.
 Proof. vm_compute. repeat split; reflexivity. Qed.
+
+(* ---- the hypotheses of the document-level theorems are satisfiable (Proofs/AuditWriter.v): [c09_sp] and [c09_doc None] are the
+   specification and the document of C09_mixed_ex (top master of unknown size), [c09_doc (Some 1)] the same with a known-size top master,
+   [c09_wide] a document with explicit 3-, 2- and 4-byte size fields and an unknown-size master, [c09_wide_full] a Full item with an
+   explicit 3-byte size field, [c09_mixed] the mixed presentation of C09_mixed_ex *)
+
+(* C09_separate_calls_encode: d = true (unknown- and known-size top master) and d = false *)
+Example C09_ex_hyp_separate :
+  Forall (wconf c09_sp true []) (c09_doc None) /\ Forall (wconf c09_sp true []) (c09_doc (Some 1%nat)) /\
+  Forall (wconf c09_sp false []) c09_wide.
+Proof. split; [apply c09_sep_conf; left; reflexivity|split; [apply c09_sep_conf; right; reflexivity|exact c09_sep_wide_conf]]. Qed.
+
+(* C09_full_items_encode: d = true with the unknown-size option on the item, d = true with a known size, d = false;
+   C09_full_equals_separate: the known-size document is [all_known] *)
+Example C09_ex_hyp_full :
+  Forall (fconf c09_sp true []) (c09_doc None) /\ Forall (fconf c09_sp true []) (c09_doc (Some 1%nat)) /\
+  Forall (fconf c09_sp false []) c09_wide_full /\ Forall all_known (c09_doc (Some 1%nat)).
+Proof.
+  split; [apply c09_full_conf; left; reflexivity|split; [apply c09_full_conf; right; reflexivity|split; [exact c09_full_wide_conf|exact c09_all_known]]].
+Qed.
+
+(* C09_mixed_encodes / C09_presentation_irrelevant: the mixed presentation, the all-separate one and the all-Full one *)
+Example C09_ex_hyp_mixed :
+  pconf_forest c09_sp true [] (c09_doc None) c09_mixed /\
+  pconf_forest c09_sp true [] (c09_doc None) (map all_sep (c09_doc None)) /\ pconf_forest c09_sp true [] (c09_doc None) [].
+Proof. exact c09_mixed_conf. Qed.
+
+(* the theorems applied to these documents: all four presentations of the known-size document, and explicit widths *)
+Example C09_ex_applied :
+  snd (run_writer c09_sp (fops true (c09_doc (Some 1%nat))) []) = snd (run_writer c09_sp (wops_forest true (c09_doc (Some 1%nat))) []) /\
+  snd (run_writer c09_sp (pops_forest true (c09_doc None) c09_mixed) []) = enc_forest (c09_doc None) /\
+  snd (run_writer c09_sp (wops_forest false c09_wide) []) = enc_forest c09_wide /\
+  enc_forest c09_wide = [129; 32; 0; 23; 65; 4; 64; 1; 5; 65; 3; 1; 255; 255; 255; 255; 255; 255; 255; 65; 2; 16; 0; 0; 2; 7; 8].
+Proof.
+  split; [apply C09_full_equals_separate; [apply c09_full_conf; right; reflexivity|exact c09_all_known]|].
+  split; [apply C09_mixed_encodes; apply c09_mixed_conf|].
+  split; [apply C09_separate_calls_encode; exact c09_sep_wide_conf|vm_compute; reflexivity].
+Qed.
